@@ -5,6 +5,7 @@
 import TrompModel.Model.World
 import Driver.Fmt
 import Driver.RangeDrv
+import Driver.MatcherDrv
 
 open Tromp
 
@@ -132,6 +133,7 @@ def main (args : List String) : IO UInt32 := do
   match args with
   | ["world"] => Driver.worldLoop stdin stdout {}; return 0
   | ["range"] => Driver.rangeLoop stdin stdout; return 0
+  | ["matcher"] => Driver.matcherLoop stdin stdout; return 0
   | _ =>
     IO.eprintln "usage: tmodel world < script"
     return 2
